@@ -42,6 +42,9 @@
 //     an expression that reads from them (`req.Question[0].Qtype`) becomes an
 //     extra parameter `e<k>_<name>` holding its value; so does a type assertion
 //     `x.(T)` to a translatable type (the dynamic type is not modelled);
+//   - `len(x)` and `x == nil` / `x != nil` for x of abstract type (a slice of
+//     networks, a *dns.Msg local) are extra parameters `e<k>_len_<x>` : Int and
+//     `e<k>_isNil_<x>` : Bool (one per distinct expression);
 //   - []error literals, append on them and errors.Join are lists of optional
 //     texts and "first non-nil" (errors.Join is non-nil iff an element is);
 //   - any other call is *opaque*: its result becomes an extra parameter of the
@@ -641,6 +644,21 @@ func (c *fctx) opaqueValue(e ast.Expr) ex {
 	return ex{code: name}
 }
 
+// opaqueNamed is opaqueValue with an explicit key, parameter name and Lean type.
+func (c *fctx) opaqueNamed(key, base, lt string) ex {
+	if c.opaqueVals == nil {
+		c.opaqueVals = map[string]string{}
+	}
+	if n, ok := c.opaqueVals[key]; ok {
+		return ex{code: n}
+	}
+	c.nOpaque++
+	name := fmt.Sprintf("e%d_%s", c.nOpaque, base)
+	c.opaque = append(c.opaque, fmt.Sprintf("(%s : %s)", name, lt))
+	c.opaqueVals[key] = name
+	return ex{code: name}
+}
+
 func (c *fctx) selector(x *ast.SelectorExpr) ex {
 	// qualified identifier (pkg.Var): only errors as opaque values
 	if id, ok := x.X.(*ast.Ident); ok {
@@ -706,6 +724,15 @@ func (c *fctx) binary(x *ast.BinaryExpr) ex {
 		if id, ok := x.Y.(*ast.Ident); ok && id.Name == "nil" && c.p.info.Uses[id] == types.Universe.Lookup("nil") {
 			if c.isRecvVal(x.X) {
 				return ex{code: fmt.Sprint(x.Op == token.NEQ)}
+			}
+			if c.t.leanType(tx) == "" {
+				if _, isId := x.X.(*ast.Ident); isId {
+					v := c.opaqueNamed(c.show(x.X)+" == nil", "isNil_"+sanitize(c.show(x.X)), "Bool")
+					if x.Op == token.NEQ {
+						return ex{code: "(!" + v.code + ")"}
+					}
+					return v
+				}
 			}
 			a := c.expr(x.X)
 			m := "isNone"
@@ -863,6 +890,9 @@ func (c *fctx) call(x *ast.CallExpr) ex {
 					}
 					return r
 				})
+			}
+			if id.Name == "len" && len(x.Args) == 1 && c.t.leanType(c.typeOf(x.Args[0])) == "" {
+				return c.opaqueNamed(c.show(x), "len_"+sanitize(lastName(c.show(x.Args[0]))), "Int")
 			}
 			fail("builtin %s", id.Name)
 		}
